@@ -171,3 +171,27 @@ func GoroutinesMatching(settle time.Duration, subs ...string) []string {
 		time.Sleep(time.Millisecond)
 	}
 }
+
+// Bounded relays ch until it is closed. If that does not happen within limit (virtual time inside a bubble) the relay stops,
+// closes its output and sets *hung: a consumer ranging over a channel that is never closed would otherwise keep a bubble with
+// live tickers running for ever.
+func Bounded[T any](ch <-chan T, limit time.Duration, hung *bool) <-chan T {
+	out := make(chan T)
+	go func() {
+		defer close(out)
+		giveUp := time.After(limit)
+		for {
+			select {
+			case v, ok := <-ch:
+				if !ok {
+					return
+				}
+				out <- v
+			case <-giveUp:
+				*hung = true
+				return
+			}
+		}
+	}()
+	return out
+}
